@@ -54,7 +54,7 @@ def main(run):
                         "each harness has a reachability twin (post: False) that must produce a counterexample"]
     run.outside += ["weekly frequency", "string legs outside the listed windows", "CSV import/export of periods (databoxes/_imports, _exports: file I/O)",
                     "compact strings"]
-    timeout = 150 if run.tier == "quick" else 300
+    timeout = 300 if run.tier == "quick" else 600
     xhrun.run_harness(run, HARNESS, select=_select(run.tier), timeout=timeout, twin_timeout=60, finding_prefix="dates:")
     run.extra["exhaustive"] = True
     run.extra["rule"] = ("one evaluation = one CrossHair condition (harness function or its reachability twin) explored over all paths within its "
